@@ -664,6 +664,11 @@ class Interp:
             except TypeError:
                 pass
             if is_term(key) and not key.is_number and not T.is_str_symbol(key):
+                # a table built with one entry per element of X ({name: .. for name in X}) read with an element of X: that entry
+                if fname(key) == "elem" and len(key.args) == 2:
+                    fam = [k_ for k_ in base if is_term(k_) and k_ == op("elem", key.args[0])]
+                    if len(fam) == 1:
+                        return base[fam[0]]
                 # symbolic key into a concrete dict
                 return op("item", to_term(base), key)
             return self.note_unknown(f"missing dict key {key!r}", node, env)
@@ -1222,7 +1227,10 @@ class Interp:
         if kind == "dict":
             # same representation as a loop that stores one entry per element: a family entry keyed by a term over the element
             kt = to_term(self.eval(node.key, e2))
-            vt = to_term(self.eval(node.value, e2))
+            v_raw = self.eval(node.value, e2)
+            if isinstance(v_raw, list) and not conds:
+                return {kt: v_raw}          # {x: [] for x in X}: one (growable) list per element
+            vt = to_term(v_raw)
             return {kt: op("guarded", AND(*conds), vt) if conds else vt}
         else:
             body = to_term(self.eval(node.elt, e2))
@@ -1756,6 +1764,15 @@ class Interp:
             break_conds=[self.relative_cond(c, benv.pathcond) for c, _ in fb.breaks],
             return_conds=[self.relative_cond(c, benv.pathcond) for c, _ in fb.returns],
             has_else=bool(st.orelse), body_env=final_env))
+        # lists kept in a per-element table ({x: [] for x in X}) that this loop over X appended to: the appended values are values
+        # of the family entry, written over the family's own element elem(X)
+        for n_, v_ in list(env.vars.items()):
+            if isinstance(v_, dict):
+                for k_, lst in v_.items():
+                    if is_term(k_) and k_ == op("elem", itt) and isinstance(lst, list):
+                        for j_, x_ in enumerate(lst):
+                            if is_term(x_) and x_.has(op("elem", itt, lv)):
+                                lst[j_] = x_.xreplace({op("elem", itt, lv): op("elem", itt)})
         for n in carried_names:
             orig = pre[n]
             fin = final_env.vars.get(n, MISSING)
